@@ -303,8 +303,11 @@ def report(ctx: click.Context, tjp_file: Optional[str], output_csv: bool, output
             click.echo(f"Processing: {tjp_path.name}", err=True)
 
         # Calculate SHA256 hash of the input file for report_id
-        with open(tjp_path, "rb") as f:  # type: ignore[assignment]
-            file_hash = hashlib.sha256(f.read()).hexdigest()  # type: ignore[arg-type]
+        try:
+            with open(tjp_path, "rb") as f:  # type: ignore[assignment]
+                file_hash = hashlib.sha256(f.read()).hexdigest()  # type: ignore[arg-type]
+        except OSError as e:
+            raise FileNotFoundError(f"Cannot read input file: {e}") from e
 
         if verbose:
             logger.debug("Input file SHA256: %s", file_hash)
